@@ -10,53 +10,119 @@ open Bifrost Bifrost.Codec
 /-- The peer ID of a public key decodes back to exactly that key. -/
 theorem extract_idFromPublicKey (raw : Bytes) (h : raw.length = 32) :
     extractPublicKey (idFromPublicKey raw) = some raw := by
-  sorry
+  exact Codec.extract_idFromPublicKey raw h
 
 /-- Two different keys never have the same ID. -/
 theorem idFromPublicKey_injective (a b : Bytes) (ha : a.length = 32) (hb : b.length = 32)
     (h : idFromPublicKey a = idFromPublicKey b) : a = b := by
-  sorry
+  have h1 := Codec.extract_idFromPublicKey a ha
+  have h2 := Codec.extract_idFromPublicKey b hb
+  rw [h, h2] at h1
+  injection h1 with h1
+  exact h1.symm
 
 /-- An ID matches a key exactly when it was derived from it. -/
 theorem matches_iff (id raw : Bytes) : matchesPublicKey id raw = true ↔ id = idFromPublicKey raw := by
-  sorry
+  unfold matchesPublicKey
+  simp only [decide_eq_true_eq]
+  exact eq_comm
 
 /-- Base58: decoding the text of any non-empty byte string returns it. -/
 theorem b58_decode_encode (b : Bytes) (hne : b ≠ []) : B58.decode (B58.encode b) = some b := by
-  sorry
+  exact B58.decode_encode b hne
 
 /-- Base58 text is injective. -/
 theorem b58_encode_injective (a b : Bytes) (h : B58.encode a = B58.encode b) : a = b := by
-  sorry
+  by_cases ha : a = []
+  · subst ha
+    have : B58.encode b = [] := by rw [← h]; rfl
+    exact ((B58.encode_eq_nil b).mp this).symm
+  · by_cases hb : b = []
+    · subst hb
+      have : B58.encode a = [] := by rw [h]; rfl
+      exact (B58.encode_eq_nil a).mp this
+    · have h1 := B58.decode_encode a ha
+      have h2 := B58.decode_encode b hb
+      rw [h, h2] at h1
+      injection h1 with h1
+      exact h1.symm
 
 /-- The text form of every accepted ID round-trips to the same ID. -/
 theorem text_roundtrip (id : Bytes) (hid : idFromBytes id = some id) :
     idB58Decode (idB58Encode id) = some id := by
-  sorry
+  obtain ⟨_, r, hr⟩ := idFromBytes_some id id hid
+  have hne := decodeMultihash_ne_nil id r hr
+  unfold idB58Decode idB58Encode
+  rw [B58.decode_encode id hne]
+  exact hid
 
 /-- In particular for IDs derived from keys. -/
 theorem text_roundtrip_key (raw : Bytes) (h : raw.length = 32) :
     idB58Decode (idB58Encode (idFromPublicKey raw)) = some (idFromPublicKey raw) := by
-  sorry
+  exact text_roundtrip _ (idFromBytes_idFromPublicKey raw h)
 
 /-- Whatever `IDFromBytes` accepts is a well-formed multihash: two valid uvarints followed by
 exactly the announced number of digest bytes; and the ID is the input unchanged. -/
 theorem accepted_wellformed (b id : Bytes) (h : idFromBytes b = some id) :
     id = b ∧ ∃ code n dlen m, Uv.decode b = .ok code n ∧ Uv.decode (b.drop n) = .ok dlen m ∧
       ((b.drop n).drop m).length = dlen := by
-  sorry
+  obtain ⟨hid, r, hr⟩ := idFromBytes_some b id h
+  refine ⟨hid, ?_⟩
+  unfold decodeMultihash at hr
+  split at hr
+  · cases hr
+  split at hr
+  · rename_i code n hc
+    simp only at hr
+    split at hr
+    · rename_i dlen m hd
+      split at hr
+      · cases hr
+      · rename_i hlen
+        have hlt := Uv.decode_lt _ _ _ hd
+        rw [Nat.mod_eq_of_lt hlt] at hlen
+        exact ⟨code, n, dlen, m, hc, hd, by simpa using hlen⟩
+    · cases hr
+  · cases hr
 
 /-- A key is only ever extracted from an IDENTITY multihash wrapping a well-formed 32-byte
 Ed25519 public-key message. -/
 theorem extract_only_identity (id pk : Bytes) (h : extractPublicKey id = some pk) :
     pk.length = 32 ∧ ∃ digest, decodeMultihash id = some (0, digest) ∧ unmarshalPublicKey digest = some pk := by
-  sorry
+  unfold extractPublicKey at h
+  split at h
+  · cases h
+  · rename_i code digest hd
+    split at h
+    · cases h
+    · rename_i hc
+      have hc0 : code = 0 := by simpa [mhIdentity] using hc
+      subst hc0
+      refine ⟨?_, digest, hd, h⟩
+      unfold unmarshalPublicKey at h
+      split at h
+      · cases h
+      · split at h
+        · cases h
+        · simp only at h
+          split at h
+          · cases h
+          · rename_i hl
+            injection h with h
+            subst h
+            simpa using hl
 
 /-- PARTIAL / known finding F5: the clause "accepts only identity multihashes" is FALSE for
 `IDFromBytes` (it is true for `ExtractPublicKey`, see `extract_only_identity`). -/
 theorem idFromBytes_only_identity_false :
     ¬ (∀ b id, idFromBytes b = some id → ∃ digest, decodeMultihash b = some (0, digest)) := by
-  sorry
+  intro hall
+  obtain ⟨digest, hd⟩ := hall [0x12, 2, 0xaa, 0xbb] [0x12, 2, 0xaa, 0xbb] (by decide)
+  have e : decodeMultihash [0x12, 2, 0xaa, 0xbb] = some (0x12, [0xaa, 0xbb]) := by decide
+  rw [e] at hd
+  injection hd with hd
+  injection hd with hd _
+  exact absurd hd (by decide)
 
 /-- Non-vacuity: a concrete key. -/
 example : extractPublicKey (idFromPublicKey (List.replicate 32 7)) = some (List.replicate 32 7) := by
